@@ -24,6 +24,9 @@ checks = {
  "C13": dict(cat="other", tech="bounded symbolic execution of go/ssa + SMT (z3) with a symbolic math/big.Int model and symbolic hex text",
     text="IOArg.Set (scalar, compound, byte array), Sizes/bitLen, IOArg.Parse on hex array literals with symbolic digits (incl. elements wider than 64 bits) and mpc.Result are executed symbolically; every bit-layout, agreement, minimal-size, inverse and purity assertion is an SMT obligation over all values. Two defects found this way were repaired (fix: commits a47b49e, a408df4).",
     ref="DESIGN.md C13", engine="gosymx"),
+ "C14": dict(cat="other", tech="bounded symbolic execution of go/ssa + SMT (z3): symbolic gates and symbolic malformed byte tails of symbolic length",
+    text="MPCLC format only. Round trip Marshal/ParseMPCLC/Marshal on 3 signature shapes x 1..3 symbolic gates (byte-identical re-serialisation), and ParseMPCLC on a valid header followed by up to 14 (thorough 27) fully symbolic bytes of symbolic length with symbolic NumGates/NumWires: never panics, and an accepted circuit has inputs defined before use and all wires assigned. One defect found this way was repaired (fix: f84e94e).",
+    ref="DESIGN.md C14", engine="gosymx"),
  "C07": dict(cat="translation_validation", tech="SMT miter (z3) of the real builders' gate lists against bit-vector reference semantics, all operand values",
     text="Each real builder invocation (operator x operand widths x result width x target x algorithm) is compiled by the real circuits.Compiler and its output is proved equal to the exact function mod 2^wz for ALL operand values by z3 (per-output-bit incremental miter); the width/configuration quantifier is an enumerated, stated family. Counterexamples are replayed through the real Circuit.Compute.",
     ref="DESIGN.md C07", engine="circtv", script="python3-vt",
